@@ -103,12 +103,29 @@ Edged == { B(k, s1, s2) : k \in MulKinds, s1 \in ParenEdge, s2 \in ParenEdge }
 EdgedRoots == UNION { { N("Product", << z, m >>), N("Product", << m, z >>) }
                       \cup { B(k, z, m) : k \in MulKinds } \cup { B(k, m, z) : k \in MulKinds } : m \in Edged }
 
+\* a node directly below a node of its own kind (first and last operand) while the SAME inner node
+\* also occurs elsewhere in the tree: what is generated for the shared inner node must not be
+\* changed by generating the outer one
+\* (conditions every translation path supports: the to-AST path documents comparisons as unsupported)
+CondsS == { bb, U("LogNot", bb), K(BoolV(FALSE)), K(BoolV(TRUE)) }
+SelfNest ==
+  UNION { { N("Sum", << N("Product", << KI(100), IfE(N(k, << c1, c2 >>), x, y) >>),
+                        IfE(N(k, << N(k, << c1, c2 >>), c3 >>), KI(1), KI(2)) >>),
+            N("Sum", << IfE(N(k, << c3, N(k, << c1, c2 >>) >>), KI(1), KI(2)),
+                        N("Product", << KI(100), IfE(N(k, << c1, c2 >>), x, y) >>) >>),
+            N("Tup", << IfE(N(k, << N(k, << c1, c2 >>), c3 >>), x, y), IfE(N(k, << c1, c2 >>), x, y) >>) }
+          : k \in {"LogOr", "LogAnd"}, c1 \in CondsS, c2 \in CondsS, c3 \in CondsS }
+  \cup UNION { { N("Tup", << N(k, << N(k, << x, y >>), z >>), N(k, << x, y >>) >>),
+                  N("Tup", << N(k, << x, y >>), N(k, << z, N(k, << x, y >>) >>) >>),
+                  N("Sum", << N("Product", << KI(7), N(k, << N(k, << x, y >>), KI(2) >>) >>), N(k, << x, y >>) >>) }
+                : k \in {"Sum", "Product", "BitOr", "BitXor", "BitAnd"} }
+
 Unset == << "?" >>
 Listings == { << >>, << "x" >>, << "y" >>, << "w" >>, << "x", "y" >>, << "y", "x" >>,
               << "w", "x" >>, << "z", "w" >> }
 ListingsQ == { << >>, << "y" >>, << "y", "x" >>, << "w", "x" >> }
 
-Init == tree \in (Roots \cup Twins \cup EdgedRoots) /\ listed = Unset
+Init == tree \in (Roots \cup Twins \cup EdgedRoots \cup SelfNest) /\ listed = Unset
 Next == \/ /\ NHoles(tree) > 0
            /\ \E s \in PoolFor(FirstHoleTy(tree)) : tree' = FillFirst(tree, s)
            /\ UNCHANGED listed
